@@ -2,7 +2,7 @@
 import json
 from . import build, run
 
-RULE = ("operand pairs of mp::SafeInt<T> +,-,* and the converting constructor judged against exact __int128 arithmetic; "
+RULE = ("operand pairs of mp::SafeInt<T> +,-,* the converting constructor and the mixed-type operators (SafeInt<T1> op T2, T2 op SafeInt<T1>, 10x10 type pairs) judged against exact __int128 arithmetic; "
         "8-bit T: all pairs (quick+thorough), 16-bit T: all pairs (thorough, plain build) and a 1/16 slice (quick); int/long/"
         "long long/unsigned/size_t: boundary set squared + seeded random pairs biased to the overflow edge; ctor: all 10x10 "
         "(source,target) integer type pairs over the boundary set. A case = one (type, op, chunk); non-trivial = it contained "
@@ -49,6 +49,7 @@ def main(tier, seed):
     # UB-monitored builds (ASan + full UBSan incl. signed-integer-overflow)
     run.run_sharded(exe_full, ['--mode', 'enum8'], 96, on_line('enum8'), on_death('enum8'), seed)
     run.run_sharded(exe_full, ['--mode', 'ctor'], 100, on_line('ctor'), on_death('ctor'), seed)
+    run.run_sharded(exe_full, ['--mode', 'mixed'], 100, on_line('mixed'), on_death('mixed'), seed)
     run.run_sharded(exe_full, ['--mode', 'wide'], 15 * ctx.n(3, 12), on_line('wide'), on_death('wide'), seed)
     exhaustive16 = False
     if ctx.quick:
